@@ -178,9 +178,16 @@ func genC02Ops(t *rapid.T, maxOps int, kinds []string) []c02Op {
 }
 
 func genC02OpsFrom(t *rapid.T, maxOps int, kinds []string, seeded bool) []c02Op {
-	m := newMtree()
 	if seeded {
-		seedTree(vfs.New(), m)
+		return genC02OpsSeed(t, maxOps, kinds, func(m *mtree) { seedTree(vfs.New(), m) })
+	}
+	return genC02OpsSeed(t, maxOps, kinds, nil)
+}
+
+func genC02OpsSeed(t *rapid.T, maxOps int, kinds []string, seedFn func(*mtree)) []c02Op {
+	m := newMtree()
+	if seedFn != nil {
+		seedFn(m)
 	}
 	n := rapid.IntRange(3, maxOps).Draw(t, "nops")
 	all := c02AllDirs()
